@@ -414,6 +414,9 @@ def role_pattern(ctx, m):
 
 # -----------------------------------------------------------------------------------------------
 
+LEMMA_PREFIXES = ('C01.', 'C02.acyclic', 'C07.free', 'C07.retired', 'C12.removed_nolinks')
+
+
 def run_mutator_job(prog, job):
     """job: dict(op, N, cfg, fix_t, fix_x, props (prefixes to assert), check_cov). returns JSON-able result"""
     t0 = time.time()
@@ -421,7 +424,7 @@ def run_mutator_job(prog, job):
     prefixes = tuple(p + '.' for p in job['props'])
     ctx = Ctx(prog, op, N, job.get('fix_t'), job.get('fix_x'))
     res = {'job': job, 'paths': 0, 'steps': 0, 'obligations': 0, 'discharged': 0, 'assert_queries': 0, 'violations': [],
-           'outcomes': {}, 'coverage': {}, 'samples': [], 'nontrivial': 0, 'smt2': []}
+           'outcomes': {}, 'coverage': {}, 'samples': [], 'nontrivial': 0, 'smt2': [], 'lemma_violations': [], 'lemma_queries': 0}
     if not ctx.pre_sat():
         res['vacuous'] = True
         res['wall'] = time.time() - t0
@@ -484,6 +487,19 @@ def run_mutator_job(prog, job):
             })
             fs = set(fnames)
             remaining = [(n, f) for (n, f) in remaining if n not in fs]
+        # ---- supporting invariant (lemmas): the INV clauses that belong to other properties. The inductive argument for this
+        # property assumes them in the pre-state, so a path that breaks one withholds the verdict (exit 2), it is not a violation here.
+        lem = [(n, f) for (n, f) in ob if n.startswith(LEMMA_PREFIXES) and not n.startswith(prefixes)]
+        if lem and len(res['lemma_violations']) < 4:
+            neg = z3.Not(z3.And(*[f for (_, f) in lem]))
+            tq0 = time.time(); r = sv.check(*(pc + [neg])); tq += time.time() - tq0
+            res['lemma_queries'] += 1
+            if r == z3.sat:
+                m = sv.model()
+                fnames = [n for (n, f) in lem if z3.is_false(m.eval(f, model_completion=True))]
+                if fnames:
+                    res['lemma_violations'].append({'checks': fnames, 'op': op, 'N': N, 'cfg': job['cfg'], 'outcome': key, 'args': ctx.args_dict(m),
+                                                    'pre': ctx.A.model_dict(m), 'role': role_pattern(ctx, m)})
     res['coverage'] = cov
     res['feas_queries'] = eng.nq; res['model_hits'] = eng.nhit
     res['solver_time'] = eng.tq + tq
